@@ -275,6 +275,15 @@ func (a *a16) visit(f *ssa.Function, via string) {
 				a.r.Ob("A16", FnName(f)+"/go", a.p.Pos(in.Pos()), false, true, "a goroutine is started on the fast path (allocates)")
 				continue
 			}
+			if builtinName(cc) == "append" {
+				// the log buffers ([]byte) are amortised by the pools; growing any other slice on the
+				// fast path is a fresh allocation per event (the compiler's -m output does not list growslice)
+				if c, isCall := in.(*ssa.Call); isCall && !isByteSlice(c.Type()) && len(cc.Args) == 2 {
+					a.r.Ob("A16", FnName(f)+"/append:"+types.TypeString(c.Type(), shortQual), a.p.Pos(in.Pos()), false, true,
+						"append to a "+types.TypeString(c.Type(), shortQual)+" on the fast path ("+descr(cc.Args[0])+"): unlike the pooled byte buffers this slice is not amortised, so growing it allocates for every event")
+				}
+				continue
+			}
 			if builtinName(cc) != "" {
 				continue
 			}
